@@ -135,4 +135,93 @@ def shortfall (o : Bounds) (tb fb : Rat) (r : Bounds) : List Rat :=
   [rel (r.st - max (o.st - tb) 0) tb, rel (r.lo - max (o.lo - fb) 0) fb,
    rel (o.en + tb - r.en) tb, rel (min (o.hi + fb) MAXF - r.hi) fb]
 
+/-! ### the shapely pipeline `buffer_shapely_geometry`, on point sets
+
+    factor      = [1 / tb if tb > 0 else 1e9, 1 / fb if fb > 0 else 1e9]
+    transformed = transform(geometry, x ↦ x * factor)
+    buffered    = buffer(transformed, 1, round caps, mitre joins)          -- GEOS: the parameter `buf`
+    buffered    = transform(buffered, x ↦ x / factor)
+    buffered    = clip_by_rect(buffered, 0, 0, buffered.bounds[2] + 1, MAX_FREQUENCY)
+
+  Everything except GEOS's `buffer` is modelled: the two factors, the two coordinate maps, the
+  distance 1 and the clip rectangle (`pipelineSkeleton`, tied to the source by a symbolic trace for
+  all inputs), and their composition as an operation on sets of (time, frequency) points
+  (`pipelineSet`).  What the theorems need of `buffer` are hypotheses (`Extensive`, `CoversDisc ρ`),
+  evaluated at run time on what GEOS returned. -/
+
+/-- the scale factor of one axis: `1 / buffer if buffer > 0 else 1e9` -/
+def factor (b : Rat) : Rat := if b > 0 then 1 / b else 1000000000
+
+/-- `x * factor` of the first `shapely.transform` -/
+def scalePt (tb fb : Rat) (p : Pt) : Pt := (p.1 * factor tb, p.2 * factor fb)
+
+/-- `x / factor` of the second `shapely.transform` -/
+def unscalePt (tb fb : Rat) (q : Pt) : Pt := (q.1 / factor tb, q.2 / factor fb)
+
+/-- the rectangle handed to `clip_by_rect`, `maxT` being `buffered.bounds[2]` and `m` the margin the
+    code adds to it (1 in the source; all that matters, and all the tie pins, is `0 ≤ m`) -/
+def clipRect (m maxT : Rat) : Bounds := ⟨0, 0, maxT + m, MAXF⟩
+
+/-- the straight-line skeleton of `buffer_shapely_geometry` (target of the symbolic trace):
+    where a point `(x, y)` of the input is sent before buffering, the buffer distance, where a
+    point `(bx, by)` of GEOS's buffer is sent afterwards, and the clip rectangle: its lower time,
+    lower frequency and upper frequency, and for its upper time `xmax` only that it is not below the
+    largest time of the unscaled buffer (`b2` being the largest x of GEOS's buffer) -/
+def pipelineSkeleton (x y bx by_ b2 xmax tb fb : Rat) : Pt × Rat × Pt × Rat × Rat × Bool × Rat :=
+  let r := clipRect (xmax - (unscalePt tb fb (b2, 0)).1) (unscalePt tb fb (b2, 0)).1
+  (scalePt tb fb (x, y), 1, unscalePt tb fb (bx, by_), r.st, r.lo, decide ((unscalePt tb fb (b2, 0)).1 ≤ r.en), r.hi)
+
+/-- what the tie establishes of the skeleton for all inputs -/
+def pipelineSkeletonSpec (x y bx by_ tb fb : Rat) : Pt × Rat × Pt × Rat × Rat × Bool × Rat :=
+  (scalePt tb fb (x, y), 1, unscalePt tb fb (bx, by_), 0, 0, true, MAXF)
+
+/-- a set of (time, frequency) points -/
+abbrev PSet := Pt → Prop
+
+def inRect (r : Bounds) (p : Pt) : Prop := r.st ≤ p.1 ∧ p.1 ≤ r.en ∧ r.lo ≤ p.2 ∧ p.2 ≤ r.hi
+
+/-- the image of the input under the first transform -/
+def scaled (tb fb : Rat) (S : PSet) : PSet := fun q => ∃ p, S p ∧ q = scalePt tb fb p
+
+/-- squared Euclidean distance (in the scaled space) -/
+def dist2 (q c : Pt) : Rat := (q.1 - c.1) * (q.1 - c.1) + (q.2 - c.2) * (q.2 - c.2)
+
+/-- the result of the pipeline as a point set: the unscaled GEOS buffer (`buf`, distance 1) of the
+    scaled input, cut to the clip rectangle.  `maxT` is what `buffered.bounds[2]` returned, `m` the
+    margin added to it. -/
+def pipelineSet (buf : PSet → PSet) (S : PSet) (tb fb m maxT : Rat) : PSet :=
+  fun p => inRect (clipRect m maxT) p ∧ ∃ q, buf (scaled tb fb S) q ∧ p = unscalePt tb fb q
+
+/-- `maxT` bounds the times of the unscaled buffer from above (it is shapely's `bounds[2]` of it) -/
+def IsMaxTime (buf : PSet → PSet) (S : PSet) (tb fb maxT : Rat) : Prop :=
+  ∀ q, buf (scaled tb fb S) q → (unscalePt tb fb q).1 ≤ maxT
+
+/-- contract: a buffer (distance 1 ≥ 0) contains what it buffers -/
+def Extensive (buf : PSet → PSet) : Prop := ∀ T q, T q → buf T q
+
+/-- contract: the buffer contains the disc of radius `ρ` around every point of its input
+    (`ρ = 1` for an exact buffer; GEOS's round caps are 32-gons inscribed in the unit circle,
+    which contain the disc of radius cos(π/32) = 0.99518…) -/
+def CoversDisc (ρ : Rat) (buf : PSet → PSet) : Prop :=
+  ∀ T c q, T c → dist2 q c ≤ ρ * ρ → buf T q
+
+/-- the exact buffer of distance 1: everything within distance 1 of the input -/
+def discBuf : PSet → PSet := fun T q => ∃ c, T c ∧ dist2 q c ≤ 1
+
+/-- the anisotropic (elliptical) neighbourhood the pipeline is designed to produce: `p` is within
+    the buffers of `c`, measured in buffer widths (semi-axes `1 / factor`, i.e. `tb` and `fb`) -/
+def withinBuffers (ρ tb fb : Rat) (p c : Pt) : Prop :=
+  ((p.1 - c.1) * factor tb) * ((p.1 - c.1) * factor tb) +
+  ((p.2 - c.2) * factor fb) * ((p.2 - c.2) * factor fb) ≤ ρ * ρ
+
+/-- decidable version of `withinBuffers` for the driver -/
+def withinBuffersB (ρ tb fb : Rat) (p c : Pt) : Bool :=
+  decide (((p.1 - c.1) * factor tb) * ((p.1 - c.1) * factor tb) +
+  ((p.2 - c.2) * factor fb) * ((p.2 - c.2) * factor fb) ≤ ρ * ρ)
+
+/-- the sample points at which the run-time monitor evaluates `CoversDisc ρ` around a vertex `c`
+    of the scaled input: `c + ρ·d` for the direction table `dirs` (unit vectors) -/
+def discProbes (ρ : Rat) (dirs : List Pt) (c : Pt) : List Pt :=
+  dirs.map (fun d => (c.1 + ρ * d.1, c.2 + ρ * d.2))
+
 end SE.Buf
